@@ -24,7 +24,7 @@ func init() {
 		Doc: "a scripted (conforming) client proposes each of the 256 window values to a real server, completes the handshake and exchanges data in both directions; each value once with a plain handshake, once with a restarted one, and once as a second SYN that replaces a valid first proposal while the server waits for the SYNACK",
 	})
 	simrt.Register(&simrt.Scenario{
-		Prop: "C07", Name: "gbn-inject-live", Count: tiered(6000, 100000),
+		Prop: "C07", Name: "gbn-inject-live", Count: tiered(6000, 800000),
 		Run: c07Inject, MaxOps: 2 << 20, Horizon: 2 * time.Hour,
 		Doc: "real client and server; garbage, truncated/extended/mutated packets and every ACK/NACK/SYN value injected toward either endpoint in every phase (waiting for SYN, waiting for SYNACK, data phase idle, k outstanding, mid-resend); afterwards a conforming exchange must still work or fail with errors",
 	})
